@@ -747,7 +747,7 @@ def _build_smt(g, spec, check):
         svars.append(("retk%d" % d, "false"))
         svars.append(("rete%d" % d, "false"))
     kind = check[0]
-    if kind in ("precedes_ok", "precedes", "held_during", "precedes_true", "last_is", "requires_between"):
+    if kind in ("precedes_ok", "precedes", "held_during", "precedes_true", "last_is", "requires_between", "ok_requires"):
         svars.append(("st", "false"))
     elif kind in ("not_after_fail", "err_propagates"):
         svars.append(("st", "false"))
@@ -774,7 +774,7 @@ def _build_smt(g, spec, check):
         if name == "st":
             evs = n.events
             tag = "t%d" % n.id if n.blk.kind == "call" else "true"
-            if kind == "precedes":
+            if kind in ("precedes", "ok_requires"):
                 if check[1] in evs:
                     return "true"
                 return cur
@@ -835,6 +835,12 @@ def _build_smt(g, spec, check):
         for n in g.nodes:
             if check[3] in n.events:
                 bad.append("(and r%d st_%d)" % (n.id, n.id))
+    elif kind == "ok_requires":
+        # a top-level return whose value is known to be Ok(..) although event A never happened.
+        # The return tag is assigned in the block that sets _0; evaluate it at the return node.
+        for n in g.nodes:
+            if n.blk.kind == "return" and len(n.ctx) == 0:
+                bad.append("(and r%d retk0_%d (not rete0_%d) (not st_%d))" % (n.id, n.id, n.id, n.id))
     elif kind == "last_is":
         for n in g.nodes:
             if check[2] in n.events:
